@@ -13,13 +13,17 @@ WrSlots(s, set, n) ==
   LET ks == {k \in DOMAIN set : Has(s, k) /\ IdxOf(s, k) < n} IN
   [j \in {IdxOf(s, k) : k \in ks} |-> set[CHOOSE k \in ks : IdxOf(s, k) = j]]
 \* iter_mut: the first nf slots from the front, then up to nb of the remaining ones from the back
+\* (bf: the back ones are taken first, then up to nf of the remaining ones from the front)
 NbOf(op) == IF "nb" \in DOMAIN op THEN op.nb ELSE 0
+BfOf(op) == "bf" \in DOMAIN op /\ op.bf
 MinOf(a, b) == IF a < b THEN a ELSE b
-IterSlots(s, nf, nb) ==
-  LET len == Len(s.keys)  f == MinOf(nf, len)  bk == MinOf(nb, len - f) IN
+IterSlots(s, nf, nb, bf) ==
+  LET len == Len(s.keys)
+      f  == IF bf THEN MinOf(nf, len - MinOf(nb, len)) ELSE MinOf(nf, len)
+      bk == IF bf THEN MinOf(nb, len) ELSE MinOf(nb, len - f) IN
   {i \in 0..(len-1) : i < f \/ i >= len - bk}
-WrIter(s, set, nf, nb) ==
-  LET ks == {k \in DOMAIN set : Has(s, k) /\ IdxOf(s, k) \in IterSlots(s, nf, nb)} IN
+WrIter(s, set, nf, nb, bf) ==
+  LET ks == {k \in DOMAIN set : Has(s, k) /\ IdxOf(s, k) \in IterSlots(s, nf, nb, bf)} IN
   [j \in {IdxOf(s, k) : k \in ks} |-> set[CHOOSE k \in ks : IdxOf(s, k) = j]]
 KeepSlots(s, keep) == {IdxOf(s, k) : k \in {x \in keep : Has(s, x)}}
 \* hint codes of the harness: <<>> = exact; hi = -1: None, -2: usize::MAX, -3: usize::MAX/2 (both
@@ -45,8 +49,8 @@ Apply(kind, s, op, f) ==
          LET keep == KeepSlots(s, op.keep)  wr == WrSlots(s, op.set, Len(s.keys)) IN
          IF pq THEN PqRetain(s, keep, wr, f) ELSE DqRetain(s, keep, wr, f)
     [] op.op = "iter_mut" ->
-         IF pq THEN PqIterMut(s, WrIter(s, op.set, op.n, 0), op.forget, f)
-         ELSE DqIterMut(s, WrIter(s, op.set, op.n, NbOf(op)), op.forget, f)
+         IF pq THEN PqIterMut(s, WrIter(s, op.set, op.n, 0, FALSE), op.forget, f)
+         ELSE DqIterMut(s, WrIter(s, op.set, op.n, NbOf(op), BfOf(op)), op.forget, f)
     [] op.op = "extend" ->
          LET rb == ExtendRebuilds(s.size, DecodeHint(op.hint, Len(op.pairs))) IN
          IF pq THEN PqExtend(s, op.pairs, rb, f) ELSE DqExtend(s, op.pairs, rb, f)
@@ -97,7 +101,7 @@ EventOf(kind, s, op, r) ==
                         set |-> IF s.keys[i] \in DOMAIN op.set THEN <<[r |-> op.set[s.keys[i]], t |-> 0]>> ELSE <<>>,
                         newpay |-> <<>>]]]
     [] op.op = "iter_mut" ->
-         LET sl  == IterSlots(s, op.n, IF kind = "pq" THEN 0 ELSE NbOf(op))
+         LET sl  == IterSlots(s, op.n, IF kind = "pq" THEN 0 ELSE NbOf(op), BfOf(op))
              ord == SetToSortSeq(sl, LAMBDA x, y : x < y) IN
          [op |-> op.op, forget |-> op.forget,
           ys |-> [j \in 1..Len(ord) |->
